@@ -778,3 +778,45 @@ Fixpoint uvarint (l : list Z) : option Z :=
 
 Definition encode_int (x : Z) : list Z := put_uvarint 10 (zigzag x).
 Definition decode_int (l : list Z) : option Z := option_map unzigzag (uvarint l).
+
+(* ---------- classes of TOCs for which tree agreement is proved (explicit boolean predicates) ---------- *)
+
+Definition known_type (t : etype) : bool :=
+  match t with TDir | TReg | TSymlink | TChar | TBlock | TFifo => true | _ => false end.
+
+(* one entry: known non-link type, permission bits below the type bits, not the root, a single-chunk file *)
+Definition entry_okb (e : entry) : bool :=
+  known_type (e_type e) && (0 <=? e_perm e) && (e_perm e <? 16777216) && negb (path_eqb (clean (e_name e)) [])
+  && (if etype_eqb (e_type e) TReg
+      then (0 <=? e_size e) && (e_choff e =? 0) && ((e_chsize e =? 0) || (e_chsize e =? e_size e))
+           && (negb (e_size e =? 0) || (e_off e =? 0))
+      else e_off e =? 0).
+
+Fixpoint nodup_paths (l : list (list Z)) : bool :=
+  match l with
+  | [] => true
+  | p :: t => negb (existsb (path_eqb p) t) && nodup_paths t
+  end.
+
+(* implicit parent directories allowed: distinct names, and an entry whose name is an ancestor of another entry's
+   name comes before it *)
+Definition implicit_tocb (toc : list entry) : bool :=
+  forallb entry_okb toc
+  && nodup_paths (map (fun e => clean (e_name e)) toc)
+  && forallb (fun je : nat * entry =>
+       forallb (fun ke : nat * entry =>
+         negb (is_suffix_proper (clean (e_name (snd ke))) (clean (e_name (snd je)))) || Nat.ltb (fst ke) (fst je))
+         (number 0 toc)) (number 0 toc).
+
+(* an explicit root entry ("./", "/", "."): a directory whose cleaned name is empty *)
+Definition root_entryb (e : entry) : bool :=
+  path_eqb (clean (e_name e)) [] && etype_eqb (e_type e) TDir && (0 <=? e_perm e) && (e_perm e <? 16777216) && (e_off e =? 0).
+
+(* implicit parent directories AND an explicit root entry allowed (the ordering condition puts the root entry first) *)
+Definition rooted_tocb (toc : list entry) : bool :=
+  forallb (fun e => entry_okb e || root_entryb e) toc
+  && nodup_paths (map (fun e => clean (e_name e)) toc)
+  && forallb (fun je : nat * entry =>
+       forallb (fun ke : nat * entry =>
+         negb (is_suffix_proper (clean (e_name (snd ke))) (clean (e_name (snd je)))) || Nat.ltb (fst ke) (fst je))
+         (number 0 toc)) (number 0 toc).
